@@ -59,14 +59,25 @@ struct TypeOps {
 template <class T>
 struct Holder {
   T v{};
+  T& subject() { return v; }
+};
+// std::reference_wrapper<T> is not default constructible: the wrapper refers to a T that lives next to it, the
+// library is handed the wrapper, the bridges look at the referent
+template <class T>
+struct RefHolder {
+  T v{};
+  std::reference_wrapper<T> ref{v};
+  std::reference_wrapper<T>& subject() { return ref; }
+  RefHolder() = default;
+  RefHolder(const RefHolder&) = delete;
 };
 
-template <class Rig, class T>
+template <class Rig, class T, class H = Holder<T>>
 WOut run_writer(void* const* objs, size_t n, size_t cap) {
   WOut o;
   Rig rig(cap);
   for (size_t i = 0; i < n; i++) {
-    St st = rig.write(static_cast<Holder<T>*>(objs[i])->v);
+    St st = rig.write(static_cast<H*>(objs[i])->subject());
     if (!st) {
       o.err = ecode(st);
       o.failed_at = i;
@@ -79,12 +90,12 @@ WOut run_writer(void* const* objs, size_t n, size_t cap) {
   o.intact = rig.intact();
   return o;
 }
-template <class Rig, class T>
+template <class Rig, class T, class H = Holder<T>>
 RIn run_reader(const uint8_t* d, size_t len, void* const* objs, size_t n) {
   RIn r;
   Rig rig(d, len);
   for (size_t i = 0; i < n; i++) {
-    St st = rig.read(&static_cast<Holder<T>*>(objs[i])->v);
+    St st = rig.read(&static_cast<H*>(objs[i])->subject());
     if (!st) {
       r.err = ecode(st);
       r.failed_at = i;
@@ -96,7 +107,7 @@ RIn run_reader(const uint8_t* d, size_t len, void* const* objs, size_t n) {
   return r;
 }
 
-template <bool On, class Rig, class T>
+template <bool On, class Rig, class T, class H = Holder<T>>
 struct AddW {
   static void go(TypeOps& t, bool unbounded = false, bool cex = false) {
     WriterOps w;
@@ -104,15 +115,15 @@ struct AddW {
     w.checked = Rig::checked;
     w.unbounded = unbounded;
     w.constexpr_writer = cex;
-    w.run = &run_writer<Rig, T>;
+    w.run = &run_writer<Rig, T, H>;
     t.writers.push_back(std::move(w));
   }
 };
-template <class Rig, class T>
-struct AddW<false, Rig, T> {
+template <class Rig, class T, class H>
+struct AddW<false, Rig, T, H> {
   static void go(TypeOps&, bool = false, bool = false) {}
 };
-template <bool On, class Rig, class T>
+template <bool On, class Rig, class T, class H = Holder<T>>
 struct AddR {
   static void go(TypeOps& t, bool bounded) {
     ReaderOps r;
@@ -120,33 +131,35 @@ struct AddR {
     r.family = Rig::family();
     r.trunc_error = Rig::trunc_error();
     r.bounded = bounded;
-    r.run = &run_reader<Rig, T>;
+    r.run = &run_reader<Rig, T, H>;
     t.readers.push_back(std::move(r));
   }
 };
-template <class Rig, class T>
-struct AddR<false, Rig, T> {
+template <class Rig, class T, class H>
+struct AddR<false, Rig, T, H> {
   static void go(TypeOps&, bool) {}
 };
 
-template <class T>
+// H = Holder<T>: the library sees the object itself; H = RefHolder<T>: it sees std::reference_wrapper<T>
+template <class T, class H = Holder<T>>
 TypeOps make_ops() {
   TypeOps t;
   t.name = Br<T>::name();
+  if (!std::is_same<H, Holder<T>>::value) t.name = "reference_wrapper<" + t.name + ">";
   t.sch = Br<T>::sch();
   t.sch.name = t.name;
   constexpr int caps = Caps<T>::v;
   t.caps = caps;
   t.obj_size = sizeof(T);
-  t.create = []() -> void* { return new Holder<T>(); };
-  t.destroy = [](void* p) { delete static_cast<Holder<T>*>(p); };
-  t.from_val = [](const Val& v, void* p) { Br<T>::from(v, static_cast<Holder<T>*>(p)->v); };
-  t.to_val = [](const void* p, Val& v) { Br<T>::to(static_cast<const Holder<T>*>(p)->v, v); };
+  t.create = []() -> void* { return new H(); };
+  t.destroy = [](void* p) { delete static_cast<H*>(p); };
+  t.from_val = [](const Val& v, void* p) { Br<T>::from(v, static_cast<H*>(p)->v); };
+  t.to_val = [](const void* p, Val& v) { Br<T>::to(static_cast<const H*>(p)->v, v); };
   t.getsize = [](const void* p) -> size_t {
     nop::Serializer<nop::BufferWriter*> s{nullptr};
-    return s.GetSize(static_cast<const Holder<T>*>(p)->v);
+    return s.GetSize(const_cast<H*>(static_cast<const H*>(p))->subject());
   };
-#define VF_W(Rig, ...) AddW<(caps & Rig::lacks) == 0, Rig, T>::go(t, ##__VA_ARGS__)
+#define VF_W(Rig, ...) AddW<(caps & Rig::lacks) == 0, Rig, T, H>::go(t, ##__VA_ARGS__)
   VF_W(WBuf);
   VF_W(WPed);
   VF_W(WCex, false, true);
@@ -161,7 +174,7 @@ TypeOps make_ops() {
   VF_W(WBoundedInner<WCex>, false, true);
   VF_W(WBoundedInner<WFd>, true);
 #undef VF_W
-#define VF_R(Rig, bounded) AddR<(caps & Rig::lacks) == 0, Rig, T>::go(t, bounded)
+#define VF_R(Rig, bounded) AddR<(caps & Rig::lacks) == 0, Rig, T, H>::go(t, bounded)
   VF_R(RBuf, true);
   VF_R(RPed, true);
   VF_R(RStr, false);
@@ -181,11 +194,11 @@ TypeOps make_ops() {
 #undef VF_R
   t.probe_write = [](const void* p, ProbeWriter& w) -> int {
     nop::Serializer<ProbeWriter*> s{&w};
-    return ecode(s.Write(static_cast<const Holder<T>*>(p)->v));
+    return ecode(s.Write(const_cast<H*>(static_cast<const H*>(p))->subject()));
   };
   t.probe_read = [](void* p, ProbeReader& r) -> int {
     nop::Deserializer<ProbeReader*> s{&r};
-    return ecode(s.Read(&static_cast<Holder<T>*>(p)->v));
+    return ecode(s.Read(&static_cast<H*>(p)->subject()));
   };
   return t;
 }
